@@ -21,6 +21,7 @@ type TLSSess struct {
 	buf  []byte
 	off  int
 	Msgs []pgwire.BMsg
+	done chan struct{} // closed when the decrypting reader goroutine has ended
 }
 
 // NewTLSSess negotiates TLS on a fresh connection.
@@ -46,7 +47,9 @@ func (e *Env) NewTLSSess() (*TLSSess, error) {
 	case <-time.After(Guard):
 		return nil, errors.New("TLS handshake: guard")
 	}
+	s.done = make(chan struct{})
 	go func() {
+		defer close(s.done)
 		b := make([]byte, 16384)
 		for {
 			n, err := s.tc.Read(b)
@@ -68,6 +71,13 @@ func (s *TLSSess) Send(b []byte) Step {
 	}
 	st := s.C.WaitIdle(Guard)
 	s.C.WaitClientDrained(Guard)
+	if closed, _ := s.C.ServerClosed(); closed {
+		// the raw bytes are consumed; the reader goroutine ends once it has handed over the last record
+		select {
+		case <-s.done:
+		case <-time.After(Guard):
+		}
+	}
 	s.mu.Lock()
 	out := append([]byte{}, s.buf...)
 	s.mu.Unlock()
@@ -84,3 +94,15 @@ func (s *TLSSess) Send(b []byte) Step {
 	}
 	return step
 }
+
+// Startup sends a startup packet (and the password if pass != nil) inside TLS.
+func (s *TLSSess) Startup(pairs [][2]string, pass *string) Step {
+	b := pgwire.Startup(pairs)
+	if pass != nil {
+		b = append(b, pgwire.Password(*pass)...)
+	}
+	return s.Send(b)
+}
+
+// Conn returns the underlying in-memory connection.
+func (s *TLSSess) Conn() *memnet.Conn { return s.C }
